@@ -188,8 +188,21 @@ def replay(case, rec):
 
 def units(tier, seed):
     n = 250 if tier == "quick" else 4000
-    return [{"name": f"hyp{k:02d}", "kind": "hyp", "n": n} for k in range(16)]
+    u = [{"name": f"hyp{k:02d}", "kind": "hyp", "n": n} for k in range(16 if tier == "quick" else 14)]
+    if tier != "quick":
+        u += [{"name": f"atheris{k}", "kind": "atheris", "runs": 6000} for k in range(2)]
+    return u
 
 
 def run_unit(unit, seed, rec, tier):
-    hyp_run(rec, c01_file(), check_case, unit["n"], seed, render=G.render)
+    if unit["kind"] == "atheris":
+        from ..harness import atheris_unit
+
+        atheris_unit(ID, rec, unit["runs"], seed)
+    else:
+        hyp_run(rec, c01_file(), check_case, unit["n"], seed, render=G.render)
+
+
+def FUZZ_TARGET():
+    """(strategy, check) for the coverage-guided pass (pbt/fuzz_atheris.py)."""
+    return c01_file(), check_case
